@@ -1,7 +1,7 @@
 """C04 - the routing table mirrors what each node advertises."""
 import random
 from props.syncer_common import *
-from props.C02 import Tracker
+from props.C02 import Tracker, ekey
 
 ID = "C04"
 COQ_TARGETS = ["Run/Run_Syncer.vo"]
@@ -60,7 +60,10 @@ def monitor(case, out):
                     continue
                 adv = [n for n in dumps[xi]["nodes"] if n["id"] == x][0]
                 mine = [n for n in dumps[o]["nodes"] if n["id"] == x]
-                sig = "F3-expiry-hole" if (o, x) in tr.expired_before else "caught-up"
+                # finding F3 is a hole in the GOSSIP view (same version, other entries) of an observer that expired the node; a
+                # routing table that does not mirror a correct gossip view is something else, expiry or not
+                hole = sorted(map(ekey, V["entries"])) != sorted(map(ekey, O["entries"]))
+                sig = "F3-expiry-hole" if (o, x) in tr.expired_before and hole else "caught-up"
                 if not mine:
                     return {"step": i, "why": "%s has caught up with %s (version %d) but its routing table does not list it" % (ids[o], x, V["ver"]), "sig": sig}
                 m = mine[0]
@@ -81,7 +84,18 @@ def f3_witness():
     return {"id": "corpus-f3", "nodes": c["nodes"], "ops": ops, "lookups": LOOKUPS}
 
 
-CORPUS = [f3_witness()]
+def rediscover_witness():
+    """b learns x, suspects it, forgets it (expiry); x withdraws e, compacts, adds f; b learns x again: its routing table
+    must show the x of now (seeded change C04-6: bookkeeping of promoted nodes not cleared)"""
+    nodes = [{"id": H("b"), "addr": H("10.0.0.1:7000")}, {"id": H("x"), "addr": H("10.0.0.2:7000")}]
+    ops = [{"op": "sync", "n": 0}, {"op": "sync", "n": 1}, {"op": "addep", "n": 1, "e": H("e")}, {"op": "join", "a": 1, "b": 0},
+           {"op": "liveness", "n": 0, "levels": {H("x"): 30.0}}, {"op": "expire", "n": 0, "ref": H("x"), "d": 1},
+           {"op": "rmep", "n": 1, "e": H("e")}, {"op": "compact", "n": 1, "th": 1}, {"op": "addep", "n": 1, "e": H("f")},
+           {"op": "join", "a": 1, "b": 0}, {"op": "liveness", "n": 0, "levels": {}}]
+    return {"id": "corpus-rediscover", "nodes": nodes, "ops": ops, "lookups": LOOKUPS}
+
+
+CORPUS = [f3_witness(), rediscover_witness()]
 
 
 def run(ctx):
@@ -89,7 +103,7 @@ def run(ctx):
     quick = ctx["tier"] == "quick"
     wd = ctx["wd"]
     n = 120 if quick else 3000
-    cases = list(CORPUS) + [gen_sync_case(rng, "s%d" % i, PROFILE_SYNC) for i in range(n)]
+    cases = list(CORPUS) + [gen_sync_case(rng, "s%d" % i, PROFILE_SYNC, expire=(i % 5 == 4)) for i in range(n)]
     binary = build_harness("server/gossip", dirs=["syncer"])
     outs = run_sync_world(binary, wd, cases)
     kf = {k["sig"]: k for k in known_findings() if k["property"] == ID and k["kind"] == "known"}
